@@ -2,7 +2,7 @@
 \* C01 configuration "logic": element-only trees of at most MaxNodes nodes over names {a, b}
 \* against :not / :is / :where / :matches / :has with complex and relative arguments, lists,
 \* and one further level of nesting.
-EXTENDS CssDecl, TLC, Json, SequencesExt
+EXTENDS Ir, TLC, Json, SequencesExt
 CONSTANTS MaxNodes, Nest
 VARIABLE doc
 
@@ -43,4 +43,7 @@ Env == [nsmap |-> <<>>, scope |-> RootOf(doc)]
 Rel1(s) == {i \in Elems(doc) : Matches(doc, Env, <<Pool[s]>>, i)}
 Res == [s \in 1..Len(Pool) |-> MaskUpTo(Rel1(s), Len(doc.parent))]
 Emit == PrintT(ToJson([doc |-> doc, res |-> Res]))
+\* T-AlgoEqDecl: the implementation-shaped matcher over the compiled IR agrees with the declarative semantics
+AlgoEqDecl == \A s \in 1..Len(Pool) : \A i \in Elems(doc) :
+                 AlgoMatches(doc, Env, <<Pool[s]>>, i) = Matches(doc, Env, <<Pool[s]>>, i)
 =============================================================================
